@@ -1,6 +1,7 @@
 package main
 
 import (
+	"go/constant"
 	"fmt"
 	"go/token"
 	"go/types"
@@ -559,6 +560,17 @@ func (r *Report) Count(key, fnKey string, effs []Effect, exits string, min, max 
 			}
 			if exits == "fail" && !returnIsFailure(fn, rt) {
 				continue
+			}
+			if exits == "fail" && len(rt.Results) > 0 {
+				// the failure being returned is the counted effect's own error (`if err := eff(); err != nil { return err }`,
+				// equivalently `return eff()`): the effect did not take place
+				v := rt.Results[len(rt.Results)-1]
+				if ex, ok := v.(*ssa.Extract); ok {
+					v = ex.Tuple
+				}
+				if ins, ok := v.(ssa.Instruction); ok && set[ins] {
+					continue
+				}
 			}
 			ex[b] = true
 		}
@@ -3979,9 +3991,46 @@ func (r *Report) RetPred(key, fnKey string, idx int, c Cond, min int) {
 			n++
 		}
 	}
+	// the same predicate written as a branch: if c { return true }; return false  (or its mirror image)
+	constRet := func(b *ssa.BasicBlock) (bool, bool) {
+		if len(b.Preds) != 1 || len(b.Instrs) != 1 {
+			return false, false
+		}
+		rt, ok := b.Instrs[0].(*ssa.Return)
+		if !ok {
+			return false, false
+		}
+		cv, ok := retValue(rt, idx).(*ssa.Const)
+		if !ok || cv.Value == nil || cv.Value.Kind() != constant.Bool {
+			return false, false
+		}
+		return constant.BoolVal(cv.Value), true
+	}
+	for _, b := range fn.Blocks {
+		ifi, ok := lastInstr(b).(*ssa.If)
+		if !ok || len(b.Succs) != 2 {
+			continue
+		}
+		tv, ok1 := constRet(b.Succs[0])
+		fv, ok2 := constRet(b.Succs[1])
+		if !ok1 || !ok2 || tv == fv {
+			continue
+		}
+		w.SitesExamined++
+		if m, passOnTrue := c.Match(NormalizeCond(ifi.Cond)); m && passOnTrue == tv {
+			n++
+		}
+	}
 	if n >= min {
 		r.OK(k, d, w.FnPos(fn), fmt.Sprintf("%d return(s)", n))
 	} else {
 		r.Bad(k, d, w.FnPos(fn), fmt.Sprintf("%d returns have that form, expected >= %d", n, min))
 	}
+}
+
+func lastInstr(b *ssa.BasicBlock) ssa.Instruction {
+	if len(b.Instrs) == 0 {
+		return nil
+	}
+	return b.Instrs[len(b.Instrs)-1]
 }
